@@ -242,11 +242,14 @@ def npz_bytes(entries, positional=(), compressed=False):
     return b.getvalue()
 
 
-def pt_bytes(a):
+def pt_bytes(a, legacy=False):
     import torch
 
     b = io.BytesIO()
-    torch.save(torch.from_numpy(np.array(a)), b)
+    if legacy:
+        torch.save(torch.from_numpy(np.array(a)), b, _use_new_zipfile_serialization=False)
+    else:
+        torch.save(torch.from_numpy(np.array(a)), b)
     return b.getvalue()
 
 
@@ -643,6 +646,10 @@ def gen_roundtrip(r, container=None):
     else:
         case["shape"] = list(r.choice(SHAPES))
         case["dtype"] = r.choice(ARRAY_DTYPES)
+        if c == "pt":
+            # torch's sequential layout has no storage type for the unsigned 16/32/64-bit dtypes (torch.load of such a
+            # file fails inside torch with no repo code involved): the zip layout only for those
+            case["legacy"] = r.random() < 0.4 and case["dtype"] not in ("uint16", "uint32", "uint64")
         if c == "npz":
             case["layout"] = r.choice(["positional", "named", "mixed"])
             case["compressed"] = r.random() < 0.3
@@ -684,7 +691,9 @@ def build(case, root):
         data = npy_bytes(exp)
     elif c == "pt":
         exp = rand_array(seed, tuple(case["shape"]), case["dtype"])
-        data = pt_bytes(exp)
+        # both on-disk layouts torch.save produces: the zip archive (default since 1.6) and the sequential one
+        # (`_use_new_zipfile_serialization=False`, what older PyTorch wrote)
+        data = pt_bytes(exp, legacy=bool(case.get("legacy")))
     elif c == "raw":
         exp0 = rand_array(seed, tuple(case["shape"]), case["dtype"])
         b = io.BytesIO()
@@ -950,6 +959,12 @@ def roundtrip_phase(ctx, driver, root):
 
 # fixed cases that must always be covered (the defect found while building this check, extremes)
 CORPUS_RT = [
+    # PyTorch's sequential (pre-1.6) layout, by name, through an open file, from memory, with and without a cast
+    dict(kind="roundtrip", container="pt", seed=21, shape=[7], dtype="float32", legacy=True, access="path"),
+    dict(kind="roundtrip", container="pt", seed=22, shape=[4, 3], dtype="int16", legacy=True, access="path", dtype_arg="float64"),
+    dict(kind="roundtrip", container="pt", seed=23, shape=[33], dtype="float64", legacy=True, access="file"),
+    dict(kind="roundtrip", container="pt", seed=24, shape=[2, 3, 4], dtype="int64", legacy=True, access="bytesio"),
+    dict(kind="roundtrip", container="pt", seed=25, shape=[0], dtype="float32", legacy=True, access="forced"),
     dict(kind="roundtrip", container="hdf5", seed=11, shape=[5], dtype="int32", layout="single", key=None, access="path",
          dtype_arg="int16"),
     dict(kind="roundtrip", container="hdf5", seed=12, shape=[4], dtype="int64", layout="single", key="x", access="file",
